@@ -1308,6 +1308,16 @@ class Repository:
             finally:
                 await chunk_producer
 
+        for _, file in state.files:
+            # No chunk has been attributed to this file (all files were empty)
+            if file.path not in snapshot_files:
+                snapshot_files[file.path] = {
+                    'path': file.path,
+                    'chunks': [],
+                    'digest': file.digest,
+                    'metadata': file.metadata,
+                }
+
         now = datetime.utcnow()
         snapshot_data = {
             'utc_timestamp': str(now),
@@ -1500,6 +1510,7 @@ class Repository:
         files_digests = {}
         files_metadata = {}
         files_sizes = {}
+        chunkless_files = []
         total_bytes = 0
 
         for snapshot_body in snapshots:
@@ -1537,6 +1548,9 @@ class Repository:
                     )
                     chunk_position += chunk_size
 
+                if not ordered_chunks:
+                    chunkless_files.append(file_path)
+
                 files_sizes[file_path] = chunk_position
                 total_bytes += chunk_position
 
@@ -1565,6 +1579,14 @@ class Repository:
                     for x in chunks_references.items()
                 )
             )
+
+            for file_path in chunkless_files:
+                # No chunk download is going to create or finalise this file
+                restore_path, metadata = files_metadata.pop(file_path)
+                self._write_file_part(restore_path, b'', 0)
+                os.truncate(restore_path, 0)
+                self.restore_metadata(restore_path, metadata)
+                finished_tracker.update()
 
         return utils.DefaultNamespace(files=list(files_digests))
 
